@@ -41,9 +41,14 @@ def unit_layout(r, share=False, small=True):
     return lay
 
 
-def make_block(spec):
+def make_block(spec, pool=None):
+    """pool: {tuple(values): list} - when given, blocks with equal initial values are constructed from ONE caller-side list
+    object (an application that writes `init = [0] * 32` once and builds several blocks from it)"""
     if spec['type'] == 'seq':
-        return ModbusSequentialDataBlock(spec['start'], list(spec['values']))
+        vals = list(spec['values'])
+        if pool is not None:
+            vals = pool.setdefault((type(vals[0]).__name__ if vals else '', tuple(vals)), vals)
+        return ModbusSequentialDataBlock(spec['start'], vals)
     return ModbusSparseDataBlock({int(k): v for k, v in spec['cells'].items()})
 
 
@@ -53,18 +58,28 @@ def block_cells(spec):
     return {int(k): v for k, v in spec['cells'].items()}
 
 
-def make_unit(lay, zero):
-    """one unit of a layout -> (ModbusSlaveContext, {table: block}, RegFile)"""
+def make_unit(lay, zero, pool=None, via_defaults=False):
+    """one unit of a layout -> (ModbusSlaveContext, {table: block}, RegFile)
+    via_defaults: the addressing mode is configured through the process-wide Defaults.ZeroMode instead of the keyword"""
     off = 0 if zero else 1
     bl = {}
     defaulted = lay.get('defaulted', [])
     for t in TABLES:
         if t not in lay['alias'] and t not in defaulted:
-            bl[t] = make_block(lay[t])
+            bl[t] = make_block(lay[t], pool)
     for t, src in lay['alias'].items():
         bl[t] = bl[src]
     kw = {k: bl[t] for k, t in (('di', 'd'), ('co', 'c'), ('ir', 'i'), ('hr', 'h')) if t in bl}
-    slave = ModbusSlaveContext(zero_mode=zero, **kw)       # tables not given get pymodbus' default block
+    if via_defaults:
+        from pymodbus.constants import Defaults
+        old = Defaults.ZeroMode
+        Defaults.ZeroMode = zero
+        try:
+            slave = ModbusSlaveContext(**kw)
+        finally:
+            Defaults.ZeroMode = old
+    else:
+        slave = ModbusSlaveContext(zero_mode=zero, **kw)       # tables not given get pymodbus' default block
     for t in defaulted:
         bl[t] = slave.store[t]
     tabs = {}
@@ -80,9 +95,10 @@ def build(layout):
     -> (ModbusServerContext, Model, blocks {uid: {table: block}})"""
     zero = layout['zero_mode']
     slaves, models, blocks = {}, {}, {}
+    pool = {} if layout.get('share_init_lists') else None
     for uid, lay in layout['units'].items():
         uid = int(uid)
-        slaves[uid], blocks[uid], models[uid] = make_unit(lay, zero)
+        slaves[uid], blocks[uid], models[uid] = make_unit(lay, zero, pool, layout.get('via_defaults', False))
     if layout['single']:
         uid = next(iter(slaves))
         ctx = ModbusServerContext(slaves=slaves[uid], single=True)
@@ -135,6 +151,12 @@ def aliasing_problems(blocks):
     kept a caller's list - e.g. the list of one broadcast request handed to every unit - makes later writes show up elsewhere)"""
     seen = {}
     out = []
+    owners = {}
+    for uid, bl in blocks.items():
+        for t, b in bl.items():
+            if id(b) in owners and owners[id(b)][0] != uid:
+                out.append('unit %s table %s and unit %s table %s are one and the same block object' % (owners[id(b)][0], owners[id(b)][1], uid, t))
+            owners.setdefault(id(b), (uid, t))
     for uid, bl in blocks.items():
         for t, b in bl.items():
             vals = getattr(b, 'values', None)
